@@ -50,9 +50,9 @@ func (f *Fedi) createItem(host, actorID string, published time.Time, remote bool
 	actID := fmt.Sprintf("https://%s/act/%d", host, n)
 	act := Doc{"id": actID, "type": "Create", "actor": actorID, "object": note}
 	if !published.IsZero() {
-		note["published"] = published.Format(time.RFC3339)
+		note["published"] = fmtPublished(published)
 		if ownTime {
-			act["published"] = published.Format(time.RFC3339)
+			act["published"] = fmtPublished(published)
 		}
 	}
 	f.Serve(noteID, note)
@@ -62,6 +62,15 @@ func (f *Fedi) createItem(host, actorID string, published time.Time, remote bool
 		it.Value = actID
 	}
 	return it
+}
+
+// fmtPublished writes a timestamp the way servers do: whole seconds without a fraction, otherwise
+// with one.
+func fmtPublished(ts time.Time) string {
+	if ts.Nanosecond() == 0 {
+		return ts.Format(time.RFC3339)
+	}
+	return ts.Format(time.RFC3339Nano)
 }
 
 func mergeRef(sources []feedSource, limit int) []RefItem {
@@ -91,14 +100,27 @@ func scenC11(r *Run) {
 	t := r.W
 	f.QueryURLs = t.Chance(1, 4) // query-routed sources: pages and items differ only in (case-sensitive) queries
 	ns := t.Weighted(1, 3, 4, 3, 2) // 0..4 sources
+	// now and then a wide feed: more sources than any small-input special case covers, mostly
+	// equal-heavy so that many heads tie
+	wide := t.Chance(1, 12)
+	if wide {
+		ns = 9 + t.Draw(20)
+		f.MaxPages, f.MaxItems = 1, 3
+		r.S.Probe("c11_wide_feed")
+	}
+	// servers differ in timestamp precision: whole seconds, or fractions of a second
+	subsec := t.Chance(1, 3)
 	base := simEpoch.Add(-72 * time.Hour)
 	var sources []feedSource
 	for i := 0; i < ns; i++ {
 		host := fmt.Sprintf("h%d.example", 1+t.Draw(3))
 		f.host(host)
 		style := t.Weighted(4, 2, 2, 1, 1) // sorted, unsorted, equal-heavy, missing-heavy, mixed
+		if wide && t.Chance(2, 3) {
+			style = 2
+		}
 		clock := base.Add(time.Duration(t.Draw(600)) * time.Minute)
-		nextTime := func() time.Time {
+		nextTime0 := func() time.Time {
 			switch style {
 			case 0:
 				clock = clock.Add(-time.Duration(1+t.Draw(90)) * time.Minute)
@@ -117,6 +139,15 @@ func scenC11(r *Run) {
 				return time.Time{}
 			}
 			return base.Add(time.Duration(t.Draw(5)) * 30 * time.Minute)
+		}
+		nextTime := func() time.Time {
+			ts := nextTime0()
+			if subsec && !ts.IsZero() {
+				// within one second, so that only the fraction tells two items apart
+				ts = ts.Add(time.Duration(t.Draw(4)) * 250 * time.Millisecond)
+				r.S.Probe("c11_subsecond_timestamp")
+			}
+			return ts
 		}
 		var src feedSource
 		switch t.Weighted(5, 3, 1, 1) {
